@@ -217,7 +217,9 @@ def handleHostPunchNotification (c : Cfg) (s : LH) (from_ : List Addr) (d : Deta
 
 /-- `HandleRequest` after a successful unmarshal. -/
 def handleRequest (c : Cfg) (s : LH) (from_ : List Addr) (m : Msg) : LH × Outp :=
-  match m.details with
+  -- `resetMeta` re-installs the reused Details struct before `Unmarshal`, so a message without Details is
+  -- seen as one with empty Details (the `n.Details == nil` test never fires)
+  match (some (m.details.getD {}) : Option Details) with
   | none => (s, {})
   | some d =>
     if m.typ == typHostQuery then handleHostQuery c s from_ d
@@ -233,6 +235,8 @@ def addStatic (c : Cfg) (s : LH) (vpn : Addr) (addrs : List AP) : LH :=
   match s.getList id with
   | none => s
   | some rl =>
+    -- the resolved set is a Go map: duplicates collapse
+    let addrs := addrs.foldl (fun acc a => if acc.contains a then acc else acc ++ [a]) []
     let rl := { rl with hr := some addrs }
     let rl := addrs.foldl (fun rl ap =>
       if !shouldAddAll c [vpn] ap.addr then rl
